@@ -1038,16 +1038,16 @@ def ssl_record(ctx, report, c, cn, cons):
 
 # ---- R6: the length a nested parse reports is not thrown away -----------------------------------------------------
 
-def nested_lengths(ctx, report):
+def nested_lengths(ctx, report, RULE='C03.R6', scope=None):
     """a call of K.parse_immutable / K.parse_mutable / K._parse returns (object, consumed length). A caller that keeps
     only the object accepts any input the nested parser consumed a *prefix* of (string enums match their longest known
     prefix, vectors stop at their declared size): the rest of the field is silently dropped and a longer unknown value
     is decoded as a shorter known one. The length must be bound to a name that is read afterwards, or the pair must be
     returned / used whole."""
     model = ctx.model
-    report.rule('C03.R6', 'the consumed length reported by a nested parse call is used by the caller')
+    report.rule(RULE, 'the consumed length reported by a nested parse call is used by the caller')
     for f in model.functions():
-        if f.module.external:
+        if f.module.external or (scope is not None and not f.module.relpath.startswith(scope)):
             continue
         parents = {}
         for n in ast.walk(f.node):
@@ -1056,7 +1056,7 @@ def nested_lengths(ctx, report):
         for n in ast.walk(f.node):
             if not (isinstance(n, ast.Call) and isinstance(n.func, ast.Attribute) and n.func.attr in ('parse_immutable', 'parse_mutable', '_parse')):
                 continue
-            report.count('C03.R6')
+            report.count(RULE)
             report.touch(f)
             par = parents.get(id(n))
             ok = True
@@ -1083,7 +1083,7 @@ def nested_lengths(ctx, report):
                 k = model.resolve_expr(f.module, n.func.value)
                 if hasattr(k, 'mro') and takes_whole_input(ctx, k):
                     ok = True               # nothing can be left over: the dropped length is always the length of the input
-                    report.sample({'rule': 'C03.R6', 'site': f.qualname, 'nested': k.name, 'verdict': 'the nested parser consumes its whole input on every path'})
+                    report.sample({'rule': RULE, 'site': f.qualname, 'nested': k.name, 'verdict': 'the nested parser consumes its whole input on every path'})
                 elif k is None and isinstance(n.func.value, ast.Name) and f.cls is not None and f.cls.name == 'ParserText' and \
                         n.func.value.id in [a.arg for a in f.node.args.args]:
                     # the nested class is a parameter of a text primitive: every class the repository hands to the text
@@ -1092,14 +1092,15 @@ def nested_lengths(ctx, report):
                     partial = sorted(c.name for c in flow if not takes_whole_input(ctx, c))
                     if flow and not partial:
                         ok = True
-                        report.sample({'rule': 'C03.R6', 'site': f.qualname, 'nested': sorted(c.name for c in flow),
+                        report.sample({'rule': RULE, 'site': f.qualname, 'nested': sorted(c.name for c in flow),
                                        'verdict': 'every item class handed to the text primitives consumes its whole input'})
                     elif partial:
                         why += '; item classes that can stop before the end of the item: %s' % ', '.join(partial[:6])
             if not ok:
-                report.add('C03.R6', '%s@nested[%s]' % (f.construct, ast.unparse(n.func)[:50]),
+                report.add(RULE, '%s@nested[%s]' % (f.construct, ast.unparse(n.func)[:50]),
                            'nested parse %s: %s - a value longer than what the nested parser consumed is accepted and truncated' % (ast.unparse(n)[:60], why))
-    report.floor('C03.R6', 8, 'nested parse calls')
+    if scope is None:
+        report.floor(RULE, 8, 'nested parse calls')
 
 
 def only_dead_stores(fnode, name, after):
